@@ -804,8 +804,23 @@ impl Monitors {
                 } && rec.obs_before.as_ref().map(|o| h.seq == o.last_consumed_remote_seq_nr.wrapping_add(1)).unwrap_or(true);
                 if in_order {
                     v.push(f("C07", "ack-timeliness", "ack/fin-not-acked-immediately", "a FIN arrived in order, no ACK in the same instant".to_string()));
+                } else if rec.obs_before.as_ref().map(|o| h.seq == o.last_consumed_remote_seq_nr).unwrap_or(false) {
+                    // (cannot happen in these states: a consumed FIN moves the connection on)
+                    v.push(f("C07", "ack-timeliness", "ack/duplicate-fin-not-acked-immediately", "the peer's FIN arrived again, no ACK in the same instant".to_string()));
                 } else {
                     v.push(f("C07", "ack-timeliness", "ack/out-of-order-fin-not-acked-immediately", "a FIN arrived ahead of a gap (data before it is missing), no ACK in the same instant: the sender gets no duplicate acknowledgement for it".to_string()));
+                }
+            }
+        }
+        // the peer retransmits its FIN (our ACK of it was lost): while we wait for the ACK of our own FIN the
+        // duplicate is acknowledged in the same instant, like any duplicate
+        let in_last_ack = rec.obs_before.as_ref().map(|o| o.state == "last-ack").unwrap_or(false) && rec.obs_after.as_ref().map(|o| o.state == "last-ack").unwrap_or(false);
+        if in_last_ack && transport_ok && !deliver2 && w.done.is_none() && rec.emitted.is_empty() {
+            for (h, _, _) in &rec.peer_sent {
+                let dup = h.ptype == 1 && rec.obs_before.as_ref().map(|o| h.seq == o.last_consumed_remote_seq_nr).unwrap_or(false);
+                // (a FIN that also acknowledges our FIN ends the connection instead)
+                if dup {
+                    v.push(f("C07", "ack-timeliness", "ack/duplicate-fin-not-acked-immediately", "the peer's FIN arrived again while our FIN is unacknowledged, no ACK in the same instant".to_string()));
                 }
             }
         }
